@@ -26,6 +26,7 @@ pub fn run(name: &str, seed: u64, rest: &[String]) -> String {
         "compress_rule" => compress_rule(seed),
         "mod_model" => mod_model(seed),
         "patch_verify" => patch_verify(seed),
+        "chain_model" => chain_model(seed),
         "bsd0_total" => bsd0_total(seed),
         "dbc_header" => dbc_header(seed),
         "dbc_strings" => dbc_strings(seed),
@@ -76,6 +77,8 @@ fn hash_oracle(seed: u64) -> String {
     let mut names: Vec<String> = vec!["".into(), "(listfile)".into(), "(hash table)".into(), "a/b\\C.txt".into(),
         "z".into(), "{".into(), "`".into(), "@".into(), "[".into(), "/".into(), "\\".into()];
     for b in 0u8..128 { names.push((b as char).to_string()); }
+    // names outside ASCII: every byte of a multi-byte character enters the hashes unchanged
+    for s in ["M\u{fc}ller\\\u{e9}.txt", "Interface\\AddOns\\M\u{fc}ller\\M\u{fc}ller.toc", "\u{65e5}\u{672c}\u{8a9e}/\u{30d5}.blp", "\u{e9}", "a\u{df}z"] { names.push(s.into()); }
     for _ in 0..400 {
         let n = (rng.next() % 24) as usize;
         let s: String = (0..n).map(|_| ((rng.next() % 96) as u8 + 32) as char).collect();
@@ -1131,7 +1134,7 @@ fn wdl_roundtrip(seed: u64) -> String {
 /// stays inside the data, bytes and sizes equal the Rust API
 fn ffi_cursor(seed: u64) -> String {
     use crate::storm_mod::storm::*;
-    use std::ffi::{c_void, CString};
+    use std::ffi::{c_void, CStr, CString};
     use std::ptr;
     let mut rng = Rng(seed ^ 0xFF1);
     let dir = tempfile::tempdir().unwrap();
@@ -1203,11 +1206,147 @@ fn ffi_cursor(seed: u64) -> String {
         if SFileGetFileSize(ptr::null_mut(), ptr::null_mut()) != 0xFFFFFFFF { return fail("ffi_cursor", "SFileGetFileSize(NULL)".into(), "accepted".into(), "error".into()); }
         let forged_a = ((archive as usize) | (1usize << 32)) as HANDLE;
         if SFileHasFile(forged_a, c"data\\blob.bin".as_ptr()) { return fail("ffi_cursor", format!("SFileHasFile(forged archive handle {:#x})", forged_a as usize), "true".into(), "false".into()); }
+        // SFileGetArchiveName with every buffer size around the boundary: success iff name + NUL fit, nothing written at or beyond the size given
+        {
+            let name = path.to_str().unwrap().as_bytes().to_vec();
+            for size in 1..=name.len() + 3 {
+                tried += 1;
+                let mut buf = vec![0xA5u8; name.len() + 8];
+                let ok = SFileGetArchiveName(archive, buf.as_mut_ptr() as *mut std::ffi::c_char, size as u32);
+                let fits = name.len() + 1 <= size;
+                let beyond = buf[size.min(buf.len())..].iter().any(|&b| b != 0xA5);
+                if ok != fits || beyond || (ok && (buf[..name.len()] != name[..] || buf[name.len()] != 0)) {
+                    return fail("ffi_cursor", format!("SFileGetArchiveName with buffer_size {} for a {}-byte name", size, name.len()), format!("returns {}, bytes at or beyond buffer_size modified: {}", ok, beyond), format!("returns {} and writes only inside the buffer", fits));
+                }
+            }
+        }
         SFileCloseFile(file);
         if SFileGetFileSize(file, ptr::null_mut()) != 0xFFFFFFFF { return fail("ffi_cursor", "SFileGetFileSize(closed handle)".into(), "accepted".into(), "error".into()); }
         SFileCloseArchive(archive);
+        // searches: a selective mask over interleaved names equals the Rust listing filtered, no entry twice; a long name keeps the
+        // plain-name pointer inside the record; closing the archive invalidates its search handle
+        {
+            let p2 = dir.path().join("find.mpq");
+            let long_name = format!("{}\\{}", "d".repeat(262), "tail.txt");
+            let mut b = wow_mpq::ArchiveBuilder::new();
+            let mut names: Vec<String> = Vec::new();
+            for i in 0..6 { names.push(format!("note{}.txt", i)); names.push(format!("blob{}.bin", i)); if i % 2 == 1 { names.push(format!("sub\\deep{}.bin", i)); } }
+            names.push(long_name.clone());
+            for n in &names { b = b.add_file_data(vec![1, 2, 3], n); }
+            if let Err(e) = b.build(&p2) { return format!("{{\"oracle\":\"ffi_cursor\",\"error\":{:?}}}", e.to_string()); }
+            let listed: Vec<String> = match wow_mpq::Archive::open(&p2).and_then(|mut a| a.list()) { Ok(l) => l.into_iter().map(|e| e.name).collect(), Err(e) => return format!("{{\"oracle\":\"ffi_cursor\",\"error\":{:?}}}", e.to_string()) };
+            let want: Vec<String> = listed.iter().filter(|n| n.to_ascii_lowercase().ends_with(".txt")).cloned().collect();
+            let c2 = CString::new(p2.to_str().unwrap()).unwrap();
+            let mut a2: HANDLE = ptr::null_mut();
+            if !SFileOpenArchive(c2.as_ptr(), 0, 0, &mut a2) { return fail("ffi_cursor", "SFileOpenArchive(find.mpq)".into(), "false".into(), "true".into()); }
+            let mut fd: SFILE_FIND_DATA = std::mem::zeroed();
+            let hf = SFileFindFirstFile(a2, c"*.txt".as_ptr(), &mut fd, ptr::null());
+            let mut got: Vec<String> = Vec::new();
+            let mut more = !hf.is_null() && hf as isize != -1;
+            let mut guard = 0;
+            while more && guard < 100 {
+                guard += 1;
+                tried += 1;
+                let nm = CStr::from_ptr(fd.c_file_name.as_ptr()).to_string_lossy().into_owned();
+                let off = (fd.sz_plain_name as usize).wrapping_sub(fd.c_file_name.as_ptr() as usize);
+                if off > 259 { return fail("ffi_cursor", format!("SFileFind*File over an archive holding a {}-byte name with its last backslash at byte {}", long_name.len(), 262), format!("szPlainName points {} bytes behind the start of cFileName[260]", off), "a pointer into cFileName".into()); }
+                got.push(nm);
+                more = SFileFindNextFile(hf, &mut fd);
+            }
+            let trunc = |n: &String| -> String { n.chars().take(259).collect() };
+            let want_t: Vec<String> = want.iter().map(trunc).collect();
+            let mut g = got.clone(); g.sort(); let mut w = want_t.clone(); w.sort();
+            if g != w { return fail("ffi_cursor", format!("SFileFindFirstFile/NextFile with mask *.txt over {:?}", names.iter().map(trunc).collect::<Vec<_>>()), format!("{:?}", got), format!("each of {:?} once (Archive::list filtered)", want_t)); }
+            // SFileVerifyArchive over all files must return (it used to take the archive table lock and then call SFileVerifyFile, which takes it again)
+            {
+                tried += 1;
+                let (tx, rx) = std::sync::mpsc::channel();
+                let ah = a2 as usize;
+                std::thread::spawn(move || { let r = SFileVerifyArchive(ah as HANDLE, 0x20); let _ = tx.send(r); });
+                if rx.recv_timeout(std::time::Duration::from_secs(20)).is_err() {
+                    return fail("ffi_cursor", "SFileVerifyArchive(archive, SFILE_VERIFY_ALL_FILES = 0x20) on a 16-file archive".into(), "no answer within 20 s (self-deadlock on the archive table lock)".into(), "returns".into());
+                }
+            }
+            // a fresh search handle, then close the archive: the handle must be dead
+            let hf2 = SFileFindFirstFile(a2, c"*".as_ptr(), &mut fd, ptr::null());
+            SFileCloseArchive(a2);
+            tried += 1;
+            if !hf2.is_null() && hf2 as isize != -1 && SFileFindNextFile(hf2, &mut fd) {
+                return fail("ffi_cursor", "SFileFindFirstFile(archive, \"*\"), SFileCloseArchive(archive), SFileFindNextFile(search handle)".into(), "the search handle of the closed archive still answers true".into(), "false (closing an archive invalidates its search handles)".into());
+            }
+            if !hf.is_null() && hf as isize != -1 { SFileFindClose(hf); }
+        }
     }
     none("ffi_cursor", tried)
+}
+
+/// C08: a patch chain under a random history of add / remove / re-prioritise equals a plain model: the highest priority
+/// holder of a name wins (earliest added wins ties), listing is the union, a name in no archive is not found.  The archives
+/// have "holes" (a name held by the top and the bottom archive but not by the ones between).
+fn chain_model(seed: u64) -> String {
+    use wow_mpq::{ArchiveBuilder, PatchChain};
+    let mut rng = Rng(seed ^ 0xC8A1);
+    let dir = tempfile::tempdir().unwrap();
+    let universe = ["common.txt", "Data\\hole.dbc", "Data\\only_low.dbc", "ui\\frame.xml", "ui\\top.lua", "never.added"];
+    // which archive holds which name
+    let holds: [&[usize]; 5] = [&[0, 1, 2, 3], &[0, 3], &[0, 1, 4], &[0, 3, 4], &[0, 2]];
+    let mut paths = Vec::new();
+    for (a, names) in holds.iter().enumerate() {
+        let p = dir.path().join(format!("arch{}.mpq", a));
+        let mut b = ArchiveBuilder::new();
+        for &n in names.iter() { b = b.add_file_data(format!("{}@{}", universe[n], a).into_bytes(), universe[n]); }
+        if let Err(e) = b.build(&p) { return format!("{{\"oracle\":\"chain_model\",\"error\":{:?}}}", e.to_string()); }
+        paths.push(p);
+    }
+    let mut tried = 0;
+    for _round in 0..6 {
+        let mut chain = PatchChain::new();
+        let mut model: Vec<(usize, i32)> = Vec::new(); // chain order: highest priority first, earlier added first among equals
+        let mut trace: Vec<String> = Vec::new();
+        for _step in 0..14 {
+            let a = (rng.next() % 5) as usize;
+            let present = model.iter().position(|e| e.0 == a);
+            let op = rng.next() % 4;
+            if present.is_none() {
+                let prio = [0i32, 100, 100, -5, 200, 100][(rng.next() % 6) as usize];
+                trace.push(format!("add(arch{}, {})", a, prio));
+                if let Err(e) = chain.add_archive(&paths[a], prio) { return fail("chain_model", format!("{:?}", trace), format!("add_archive Err({})", e), "Ok".into()); }
+                let pos = model.iter().position(|e| e.1 < prio).unwrap_or(model.len());
+                model.insert(pos, (a, prio));
+            } else if op == 0 {
+                // re-prioritise to a value no other archive holds (the tie order after set_priority is not fixed by the property)
+                let mut prio = [7i32, 150, -20, 300, 55][(rng.next() % 5) as usize];
+                while model.iter().any(|e| e.1 == prio) { prio += 1; }
+                trace.push(format!("set_priority(arch{}, {})", a, prio));
+                if let Err(e) = chain.set_priority(&paths[a], prio) { return fail("chain_model", format!("{:?}", trace), format!("set_priority Err({})", e), "Ok".into()); }
+                model.remove(present.unwrap());
+                let pos = model.iter().position(|e| e.1 < prio).unwrap_or(model.len());
+                model.insert(pos, (a, prio));
+            } else {
+                trace.push(format!("remove(arch{})", a));
+                match chain.remove_archive(&paths[a]) { Ok(true) => {}, r => return fail("chain_model", format!("{:?}", trace), format!("remove_archive {:?}", r.map_err(|e| e.to_string())), "Ok(true)".into()) }
+                model.remove(present.unwrap());
+            }
+            for (n, name) in universe.iter().enumerate() {
+                tried += 1;
+                let winner = model.iter().find(|e| holds[e.0].contains(&n)).map(|e| e.0);
+                let got = chain.read_file(name);
+                match (winner, got) {
+                    (Some(w), Ok(bytes)) => { let want = format!("{}@{}", name, w).into_bytes(); if bytes != want { return fail("chain_model", format!("{:?} then read {:?}", trace, name), format!("content {:?}", String::from_utf8_lossy(&bytes)), format!("content {:?} (arch{} is the highest-priority holder)", String::from_utf8_lossy(&want), w)); } }
+                    (Some(w), Err(e)) => return fail("chain_model", format!("{:?} then read {:?}", trace, name), format!("Err({})", e), format!("the copy held by arch{}", w)),
+                    (None, Ok(_)) => return fail("chain_model", format!("{:?} then read {:?}", trace, name), "Ok(bytes)".into(), "not found (no archive of the chain holds it)".into()),
+                    (None, Err(_)) => {}
+                }
+                if chain.contains_file(name) != winner.is_some() { return fail("chain_model", format!("{:?} then contains_file({:?})", trace, name), format!("{}", !winner.is_some()), format!("{}", winner.is_some())); }
+            }
+            let mut listed: Vec<String> = match chain.list() { Ok(l) => l.into_iter().map(|e| e.name).filter(|n| !n.starts_with('(')).collect(), Err(e) => return fail("chain_model", format!("{:?} then list()", trace), format!("Err({})", e), "Ok".into()) };
+            listed.sort(); listed.dedup();
+            let mut want: Vec<String> = universe.iter().enumerate().filter(|(n, _)| model.iter().any(|e| holds[e.0].contains(n))).map(|(_, s)| s.to_string()).collect();
+            want.sort();
+            if listed != want { return fail("chain_model", format!("{:?} then list()", trace), format!("{:?}", listed), format!("{:?} (union of the archives in the chain)", want)); }
+        }
+    }
+    none("chain_model", tried)
 }
 
 /// M2 fixed-size records: write(parse(bytes)) reproduces the bytes and the record size matches the version
